@@ -93,6 +93,7 @@ type PathResult struct {
 	obligations, discharged, obligationsUnknown, unknowns, syntactic int
 	modelInputs map[string]uint64
 	observeVals []string
+	forkSites   map[string]int
 }
 
 type observation struct {
@@ -158,6 +159,7 @@ type Run struct {
 	mutexes map[*Value]*mutexState
 	wgs map[*Value]int64
 	onces map[*Value]bool
+	curFrame *frame
 	nowCount int
 	lastNow *Term
 	envChans []*Chan
@@ -225,6 +227,15 @@ func (r *Run) setModel(m Model) {
 // Unknown counts as feasible (and is recorded).
 func (r *Run) feasible(c *Term) (bool, Model) {
 	r.syncSolver()
+	if r.curFrame != nil {
+		r.w.solver.ctx = "feasible@" + r.curFrame.site() + " in " + r.curFrame.fn.Name()
+		if debugForks {
+			r.w.solver.ctx += " q=" + c.String() + " pc="
+			for _, p := range r.pc {
+				r.w.solver.ctx += " ∧ " + p.String()
+			}
+		}
+	}
 	res := r.w.solver.CheckWith(c)
 	switch res {
 	case Unsat:
@@ -252,6 +263,7 @@ func (r *Run) branch(fr *frame, c *Term) bool {
 	if c.IsConst() {
 		return c.val != 0
 	}
+	r.curFrame = fr
 	idx := len(r.decisions)
 	if idx < len(r.prefix) {
 		d := r.prefix[idx]
@@ -292,6 +304,7 @@ func (r *Run) branch(fr *frame, c *Term) bool {
 	var take bool
 	switch {
 	case feasT && feasF:
+		r.noteFork(fr, "branch")
 		// continue with the side for which we hold the current model, if any
 		take = true
 		if r.modelOK {
@@ -345,6 +358,7 @@ func (r *Run) choose(fr *frame, n int, what string) int {
 		r.decisions = append(r.decisions, d)
 		return int(d.v)
 	}
+	r.noteFork(fr, "choose:"+what)
 	for k := 1; k < n; k++ {
 		alt := append(append([]Decision(nil), r.decisions...), Decision{v: uint64(k), n: n})
 		var m Model
@@ -382,6 +396,7 @@ func (r *Run) concretize(fr *frame, t *Term) uint64 {
 	if t.IsConst() {
 		return t.val
 	}
+	r.curFrame = fr
 	for iter := 0; ; iter++ {
 		if iter > 4096 {
 			panic(abortRun{reason: "bound", detail: "concretization fan-out > 4096 at " + fr.site()})
@@ -423,6 +438,7 @@ func (r *Run) concretize(fr *frame, t *Term) uint64 {
 		// new: the model satisfies eq; is the other side feasible?
 		feasF, mF := r.feasible(r.tt.Not(eq))
 		if feasF {
+			r.noteFork(fr, "concretize")
 			alt := append(append([]Decision(nil), r.decisions...), Decision{b: false, v: v})
 			r.newWork = append(r.newWork, workItem{prefix: alt, model: mF})
 		}
@@ -430,6 +446,18 @@ func (r *Run) concretize(fr *frame, t *Term) uint64 {
 		r.addPC(eq)
 		return v
 	}
+}
+
+var debugForks = os.Getenv("VERIF_FORKSITES") != ""
+
+func (r *Run) noteFork(fr *frame, kind string) {
+	if !debugForks || fr == nil {
+		return
+	}
+	if r.res.forkSites == nil {
+		r.res.forkSites = map[string]int{}
+	}
+	r.res.forkSites[kind+"@"+fr.site()+" in "+fr.fn.Name()]++
 }
 
 func (r *Run) concretizeInt(fr *frame, t *Term, signed bool) int64 {
@@ -461,6 +489,7 @@ func (r *Run) assume(fr *frame, c *Term) {
 	if c.IsTrue() {
 		return
 	}
+	r.curFrame = fr
 	if c.IsFalse() {
 		panic(abortRun{reason: "assume"})
 	}
@@ -632,6 +661,19 @@ func (w *Worker) runPath(entry *ssa.Function, item workItem) (res *PathResult, n
 		default:
 			end, detail = "engine-error", fmt.Sprintf("%v\n%s", rec, engineStack())
 		}
+		if debugForks {
+			ds := ""
+			for _, d := range r.decisions {
+				if d.n > 0 {
+					ds += fmt.Sprintf("c%d/%d ", d.v, d.n)
+				} else if d.b {
+					ds += fmt.Sprintf("T%d ", d.v)
+				} else {
+					ds += fmt.Sprintf("F%d ", d.v)
+				}
+			}
+			fmt.Fprintf(os.Stderr, "PATH end=%s prefix=%d new=%d: %s\n", end, len(r.prefix), len(r.newWork), ds)
+		}
 		r.res.End = end
 		r.res.Detail = detail
 		r.res.Steps = r.steps
@@ -719,6 +761,24 @@ func (e *Engine) Explore(entry *ssa.Function, name string) *ExploreResult {
 		nw = 1
 	}
 	var wg sync.WaitGroup
+	progDone := make(chan struct{})
+	if os.Getenv("VERIF_PROGRESS") != "" {
+		go func() {
+			tk := time.NewTicker(10 * time.Second)
+			defer tk.Stop()
+			for {
+				select {
+				case <-progDone:
+					return
+				case <-tk.C:
+					mu.Lock()
+					fmt.Fprintf(os.Stderr, "PROGRESS %s: %.0fs paths=%d queue=%d active=%d violations=%d ends=%v\n", name, time.Since(start).Seconds(), out.Paths, len(work), active, len(out.Violations), out.Ends)
+					mu.Unlock()
+				}
+			}
+		}()
+	}
+	defer close(progDone)
 	fnSeen := map[string]bool{}
 	fnIc := map[string]bool{}
 	assumptions := map[string]bool{}
@@ -803,6 +863,9 @@ func (e *Engine) Explore(entry *ssa.Function, name string) *ExploreResult {
 				out.Violations = append(out.Violations, res.Violations...)
 				for _, wl := range res.Witnesses {
 					out.Witnesses[wl]++
+				}
+				for k, n := range res.forkSites {
+					out.Details["fork: "+k] += n
 				}
 				for l, n := range res.Checks {
 					out.Checks[l] += n
